@@ -709,6 +709,7 @@ func (k *Checker) runProgram(class string, prog []Op, withModel bool) {
 	}
 	nontriv := ""
 	firstDis := -1
+	absLiveOf := map[int]string{}
 	for idx, o := range prog {
 		ans, root := r.apply(o)
 		st := r.sts[o.S]
@@ -717,6 +718,11 @@ func (k *Checker) runProgram(class string, prog []Op, withModel bool) {
 		}
 		nd := c.Res.NDisagreements
 		if withModel {
+			absLive := ""
+			if o.K == "revert" {
+				absLive = k.m.Ask(fmt.Sprintf("alive %d %d", o.S, o.Id)) // what the abstract system says BEFORE the op
+			}
+			absLiveOf[idx] = absLive
 			mans := k.m.Ask(o.modelLine())
 			cas := fmt.Sprintf("%s @%d %s", ptxt, idx, o)
 			if ans == "root" {
@@ -761,6 +767,23 @@ func (k *Checker) runProgram(class string, prog []Op, withModel bool) {
 			c.Count("program-ended-by-panic")
 			break
 		}
+		if ans == "panic" && o.K == "revert" {
+			// direct oracle: RevertToSnapshot(id) of a snapshot that is LIVE (taken, not reverted, no older
+			// one reverted or finalised since) must not panic.  Live = the harness's own bookkeeping, or the
+			// abstract system's snapshot stack (StateAbs: revert panics only on ids that are not live).
+			harnessLive := false
+			for _, sr := range live[o.S] {
+				harnessLive = harnessLive || sr.id == o.Id
+			}
+			if harnessLive || absLiveOf[idx] == "1" {
+				pre := prog[:idx+1]
+				k.violate("revert-live-snapshot-panics/"+progString(pre), fmt.Sprintf("RevertToSnapshot(%d) panics although snapshot %d is live", o.Id, o.Id),
+					map[string]interface{}{"program": pre, "text": progString(pre), "at": idx, "live_by_harness_bookkeeping": harnessLive, "live_by_abstract_system": absLiveOf[idx]})
+				c.Count("program-ended-by-live-revert-panic")
+				prog = prog[:idx+1]
+				break
+			}
+		}
 		if ans == "panic" || ans == "err" {
 			c.Count("op-" + o.K + "-" + ans)
 			continue
@@ -780,7 +803,7 @@ func (k *Checker) runProgram(class string, prog []Op, withModel bool) {
 					k.nOracle["O1"]++
 					now := pubObs(st)
 					if now != l[i].obs {
-						sig := "revert-observable/" + ptxt // never a known class: histories end at the first K5 state
+						sig := "revert-live-snapshot-wrong-state/" + progString(prog[:idx+1]) // never a known class: histories end at the first K5 state
 						k.violate(sig, "a public getter differs between Snapshot and RevertToSnapshot",
 							replayObj(map[string]interface{}{"snapshot_at": l[i].opIdx, "revert_at": idx, "before": l[i].obs, "after": now}))
 					}
@@ -1332,7 +1355,25 @@ func directed() map[string][]Op {
 	pre := []Op{{K: "new"}, {K: "create", A: 4}, {K: "create", A: 3}, {K: "setbal", A: 1, V: "100"}, {K: "setcode", A: 2, Code: "0x6001"}, {K: "setstate", A: 2, Key: 1, V: "7"},
 		{K: "commit", B: false}, {K: "reopen", Id: 0, Dst: 0}}
 	mk := func(ops ...Op) []Op { return append(append([]Op{}, pre...), ops...) }
-	return map[string][]Op{
+	nest := map[string][]Op{}
+	for d := 1; d <= 4; d++ {
+		ops := []Op{}
+		for i := 0; i < d; i++ { // d outer call frames
+			ops = append(ops, Op{K: "snapshot"}, Op{K: "addbal", A: 1, V: fmt.Sprint(i + 1)})
+		}
+		id := int64(d)
+		for rep := 0; rep < 3; rep++ { // a frame whose sub-calls fail one after the other: ids stop being consecutive
+			ops = append(ops, Op{K: "snapshot"}, Op{K: "setstate", A: 2, Key: 1, V: fmt.Sprint(20 + rep)}, Op{K: "setnonce", A: 5, V: "3"}, Op{K: "revert", Id: id})
+			id++
+		}
+		ops = append(ops, Op{K: "snapshot"}, Op{K: "setcode", A: 5, Code: "0xfe"}) // one that stays, then unwind the outer frames
+		for i := d - 1; i >= 0; i-- {
+			ops = append(ops, Op{K: "revert", Id: int64(i)})
+		}
+		ops = append(ops, Op{K: "commit", B: true})
+		nest[fmt.Sprintf("revert-snapshot-again-revert-depth-%d", d)] = mk(ops...)
+	}
+	all := map[string][]Op{
 		"reverted-transfer-to-empty-account":                mk(Op{K: "snapshot"}, Op{K: "addbal", A: 4, V: "5"}, Op{K: "revert", Id: 0}, Op{K: "iroot", B: true}),
 		"reverted-touch-of-empty-account":                   mk(Op{K: "snapshot"}, Op{K: "addbal", A: 4, V: "0"}, Op{K: "revert", Id: 0}, Op{K: "addbal", A: 4, V: "9"}, Op{K: "iroot", B: true}),
 		"reverted-touch-of-ripemd":                          mk(Op{K: "snapshot"}, Op{K: "addbal", A: 3, V: "0"}, Op{K: "revert", Id: 0}, Op{K: "iroot", B: true}),
@@ -1348,6 +1389,10 @@ func directed() map[string][]Op {
 		"code-x-y-revert-x-then-commit":                     mk(Op{K: "setcode", A: 5, Code: "0x60aacc"}, Op{K: "snapshot"}, Op{K: "setcode", A: 5, Code: "0xfe"}, Op{K: "revert", Id: 0}, Op{K: "setcode", A: 5, Code: "0x60aacc"}, Op{K: "commit", B: true}, Op{K: "reopen", Id: 1, Dst: 0}, Op{K: "setstate", A: 5, Key: 0, V: "1"}, Op{K: "commit", B: true}),
 		"negative-balance-panics":                           mk(Op{K: "subbal", A: 5, V: "1"}, Op{K: "iroot", B: false}),
 	}
+	for n, p := range nest {
+		all[n] = p
+	}
+	return all
 }
 
 func main() {
